@@ -8,6 +8,6 @@ CONSTANTS
   MaxLen = 0
   SplitMaxP = 0
   SplitMaxAmt = 0
-  Defects = {"merge_min_start"}
+  Defects = {}
 INVARIANT Report
 CHECK_DEADLOCK FALSE
